@@ -2,7 +2,7 @@
 # usage: tools/sweep.sh [quick|thorough] [IDs...]  -> runs the registered checks one after another, prints exit codes
 tier=${1:-quick}; shift
 ids=${@:-$(python3 -c "import json;print(' '.join(c['property_id'] for c in json.load(open('/verif/MANIFEST.json'))['checks']))")}
-cd /verif
+cd "$(dirname "$0")/.."
 for p in $ids; do
   out=$(./check $p $tier 2>&1); rc=$?
   echo "$p exit=$rc $(echo "$out" | grep -c '^KNOWN-FINDING') known; $(echo "$out" | grep 'runs=' | tail -1 | cut -c1-110)"
